@@ -310,6 +310,7 @@ class Interp:
         self.budget = budget
         self.steps = 0
         self.degraded: list[str] = []  # calls whose interpretation was abandoned (their result is UNK)
+        self.globals_override: dict = {}  # (module name, identifier) -> value of a module-level object built by the caller
         self.depth = 0
 
     # ------------------------------------------------------------------ helpers
@@ -673,6 +674,13 @@ class Interp:
         if found:
             return v
         module = env.module
+        if (module.name, ident) in self.globals_override:
+            return self.globals_override[(module.name, ident)]
+        if ident in module.imports:
+            q0 = self.world.canonical(module.imports[ident])
+            mod0, _, name0 = q0.rpartition('.')
+            if (mod0, name0) in self.globals_override:
+                return self.globals_override[(mod0, name0)]
         if ident in module.defs and ident not in module.imports:
             d = module.defs[ident]
             if isinstance(d, ast.FunctionDef):
